@@ -5,6 +5,7 @@ import (
 	"fmt"
 	"io"
 	"math/rand/v2"
+	"strconv"
 	"strings"
 
 	"github.com/AdguardTeam/golibs/ioutil"
@@ -116,9 +117,9 @@ func evalC15(c string) Result {
 	f := strings.Split(c, " ")
 	switch f[0] {
 	case "C15.lr":
-		return evalC15LR(atoi(f[1]), parseCallsC15(f[2]))
+		return evalC15LR(parseLimitC15(f[1]), parseCallsC15(f[2]))
 	case "C15.tw":
-		return evalC15TW(atoi(f[1]), f[2])
+		return evalC15TW(parseLimitC15(f[1]), f[2])
 	case "C15.copy":
 		return evalC15Copy(atoi(f[1]), atoi(f[2]), atoi(f[3]), atoi(f[4]))
 	}
@@ -239,9 +240,20 @@ func evalC15Copy(limit, streamLen, accept, chunk int) Result {
 	return Result{Impl: impl, Direct: direct, Class: "copy"}
 }
 
-func evalC15LR(limit int, calls [][3]int) Result {
+// parseLimitC15: limits are 64-bit (the decimal text of a uint64); for the comparisons with byte
+// counts, which are ints, anything above 2^40 is as good as 2^40.
+func parseLimitC15(s string) uint64 {
+	v, err := strconv.ParseUint(s, 10, 64)
+	if err != nil {
+		panic("bad limit " + s)
+	}
+	return v
+}
+
+func evalC15LR(lim uint64, calls [][3]int) Result {
+	limit := int(min(lim, 1<<40))
 	sr := &scriptedReader{calls: calls}
-	lr := ioutil.LimitReader(sr, uint64(limit))
+	lr := ioutil.LimitReader(sr, lim)
 	var outs []string
 	direct := "ok"
 	delivered := 0
@@ -272,7 +284,7 @@ func evalC15LR(limit int, calls [][3]int) Result {
 				direct = fail("over-request", "call %d requested %d with %d already delivered, limit %d", i, sr.lastReq, delivered, limit)
 			case n > len(p) || n < 0:
 				direct = fail("bad-n", "call %d returned n=%d for len(p)=%d", i, n, len(p))
-			case delivered == limit && !(n == 0 && showErrC15(err, 0) == fmt.Sprintf("limit(%d)", limit) && !sr.called):
+			case delivered == limit && !(n == 0 && showErrC15(err, 0) == fmt.Sprintf("limit(%d)", lim) && !sr.called):
 				direct = fail("after-limit", "call %d after the limit returned n=%d err=%v called=%v", i, n, err, sr.called)
 			case sr.called && c[1] >= 0 && (n != sr.pos-posBefore || showErrC15(err, 0) != showErrC15(codeToErr(c[2]), 0)):
 				direct = fail("pass-through", "call %d: wrapped returned (%d,%v), got (%d,%v)", i, sr.pos-posBefore, codeToErr(c[2]), n, err)
@@ -327,9 +339,10 @@ func (w *scriptedWriter) Write(b []byte) (int, error) {
 	return len(b), w.err
 }
 
-func evalC15TW(limit int, ws string) Result {
+func evalC15TW(lim uint64, ws string) Result {
+	limit := int(min(lim, 1<<40))
 	sw := &scriptedWriter{short: -1}
-	tw := ioutil.NewTruncatedWriter(sw, uint(limit))
+	tw := ioutil.NewTruncatedWriter(sw, uint(lim))
 	var outs []string
 	var all []byte
 	direct := "ok"
@@ -408,6 +421,13 @@ func genC15(rng *rand.Rand, tier string) (cases []string) {
 		if v, ok := dictInt(rng, 0, 600); ok && rng.IntN(12) == 0 {
 			limit = int(v)
 		}
+		limTok := strconv.Itoa(limit)
+		if rng.IntN(25) == 0 {
+			// limits around the word sizes ("no limit" spelled as the largest value)
+			limTok = pick(rng, "2147483647", "2147483648", "4294967295", "4294967296", "4611686018427387904", "9223372036854775807", "9223372036854775808",
+				"9223372036854775809", "18446744073709551615", "18446744073709551614")
+			// (the buffer and chunk sizes below stay those of the small limit)
+		}
 		ncalls := rng.IntN(8)
 		if rng.IntN(2) == 0 {
 			var cs []string
@@ -427,7 +447,7 @@ func genC15(rng *rand.Rand, tier string) (cases []string) {
 			if s == "" {
 				s = "-"
 			}
-			cases = append(cases, fmt.Sprintf("C15.lr %d %s", limit, s))
+			cases = append(cases, fmt.Sprintf("C15.lr %s %s", limTok, s))
 		} else {
 			var ws []string
 			for j := 0; j < ncalls; j++ {
@@ -451,7 +471,7 @@ func genC15(rng *rand.Rand, tier string) (cases []string) {
 			if s == "" {
 				s = "-"
 			}
-			cases = append(cases, fmt.Sprintf("C15.tw %d %s", limit, s))
+			cases = append(cases, fmt.Sprintf("C15.tw %s %s", limTok, s))
 		}
 	}
 	return cases
